@@ -69,6 +69,10 @@ structure NearbyCluster where
 inductive Shape | absent | circular | other
   deriving DecidableEq, Repr, Inhabited
 
+/-- what the receive path makes of an alternative of the `clusterBoundingBoxShape` CHOICE (named as in the ASN.1
+module): the radius is read from `circular`, every other alternative is a cluster without a usable radius -/
+def Shape.ofAlternative (alt : String) : Shape := if alt = "circular" then .circular else .other
+
 /-- decoded `VruClusterInformationContainer` -/
 structure Info where
   cid : Option Nat        -- clusterId is OPTIONAL (`.get("clusterId", 0)`)
